@@ -93,6 +93,9 @@ def history_tag(steps):
     """suffix of a violation id naming the (recorded) history feature it depends on, so that known findings are
     identified by the history that fails and other violations of the same obligation are still reported"""
     for b, call, a in steps:
+        if call.get('call.kind') == 3 and call.get('arg.zero') == 1 and call.get('call.outcome') == 0:
+            nb = dict((l, v) for l, v in b if l == 'dat.nbFrames').get('dat.nbFrames', 0)
+            if nb: return '@rate-zeroed-with-data'          # a rate set back to 0 while frames carrying that kind of data exist
         if call.get('call.kind') == 0 and call.get('call.outcome') == 0:
             idx = call.get('arg.idx')
             nb = dict((l, v) for l, v in b if l == 'dat.nbFrames').get('dat.nbFrames', 0)
